@@ -238,7 +238,18 @@ fn build(c: &Case) -> Built {
         line += s.matches('\n').count() as u32;
         l
     };
-    push(&mut t, "ASAP2_VERSION 1 71\n/begin PROJECT p \"\"\n/begin MODULE m \"\"\n");
+    // a first module whose conversion has the same name and the same position as the one under test, but another rule
+    // (nothing computed for one module may be used for another)
+    push(&mut t, "ASAP2_VERSION 1 71\n/begin PROJECT p \"\"\n/begin MODULE m0 \"\"\n/begin COMPU_METHOD CM \"\" LINEAR \"%6.2\" \"\" COEFFS_LINEAR 1000 5 /end COMPU_METHOD\n");
+    match place(1000.0 * rlo + 5.0, 1000.0 * rhi + 5.0, Place::Inside) {
+        Some((l0, h0)) if (1000.0 * rlo).is_finite() && (1000.0 * rhi).is_finite() => {
+            push(&mut t, &format!("/begin MEASUREMENT M0 \"\" {dtname} CM 1 0 {} {} /end MEASUREMENT\n/end MODULE\n", flt(l0), flt(h0)));
+        }
+        _ => {
+            push(&mut t, "/end MODULE\n");
+        }
+    }
+    push(&mut t, "/begin MODULE m \"\"\n");
     push(&mut t, &c.conv.cm_text());
     push(
         &mut t,
@@ -410,7 +421,7 @@ fn eval(c: &Case) -> Outcome {
     match observe(&b.text) {
         Err(e) => {
             if e.starts_with("panic") {
-                o.viol.push((format!("C12/panic {}", vcore::explore::panic_key(&e)), e, json!({"text": b.text})));
+                o.viol.push((format!("C12/panic {}", vcore::explore::panic_key(&e)), e, Value::Null));
             } else {
                 o.machinery = Some(e);
             }
@@ -439,7 +450,7 @@ fn eval(c: &Case) -> Outcome {
                             if act { "reported" } else { "not reported" },
                             if exp { "outside" } else { "inside" }
                         ),
-                        json!({"text": b.text, "expected": b.expected.iter().collect::<Vec<_>>(), "subjects": b.subjects.iter().collect::<Vec<_>>()}),
+                        Value::Null,
                     ));
                 }
             }
@@ -451,7 +462,7 @@ fn eval(c: &Case) -> Outcome {
                     o.viol.push((
                         format!("C12/unexpected-subject/{}", k.0),
                         format!("LimitCheckError for {k:?} which is not an element under test"),
-                        json!({"text": b.text, "expected": b.expected.iter().collect::<Vec<_>>(), "subjects": b.subjects.iter().collect::<Vec<_>>()}),
+                        Value::Null,
                     ));
                 }
             }
@@ -492,8 +503,14 @@ pub fn run(tier: &str) -> Run {
         if let Some(m) = o.machinery {
             run.machinery(format!("case {i} ({} {}): {m}", DATATYPES[cases[i].dt].0, cases[i].conv.name()));
         }
-        for (k, w, r) in o.viol {
-            run.violation(k, w, r);
+        for (k, w, _) in o.viol {
+            // (the replay data is the grid point; the module is rebuilt from it)
+            if run.viol_count.contains_key(&k) {
+                run.violation(k, w, Value::Null);
+            } else {
+                let b = build(&cases[i]);
+                run.violation(k, w, json!({"text": b.text, "expected": b.expected.iter().collect::<Vec<_>>(), "subjects": b.subjects.iter().collect::<Vec<_>>()}));
+            }
         }
     }
     run.outcome_n("element limit verdicts compared", subjects);
